@@ -382,6 +382,58 @@ func c19Equals(c *Ctx, infos []mappingInfo) {
 				c.R.check(r.isConst("false"), rule, key, shortFn(f), c.fpos(f), "a mapping of another kind is never equal", describeRet(p))
 				continue
 			}
+			// exact-equality fast path: when BOTH parameters compare == (so neither is NaN), the tolerance test holds
+			// for every finite value and fails for infinite ones (Inf − Inf is NaN); a path taken under those two
+			// equalities may answer with a conjunction of "is not infinite" tests of those parameters and nothing else
+			{
+				eqParam := func(t *Term, fld string) bool {
+					if !t.isBin("==") {
+						return false
+					}
+					x, y := t.Args[0], t.Args[1]
+					return x.Op == "field" && y.Op == "field" && x.Sym == fld && y.Sym == fld && (x.Args[0].isParam(0) && y.Args[0].Op == "extract" || y.Args[0].isParam(0) && x.Args[0].Op == "extract")
+				}
+				gEq, oEq := false, false
+				for _, cd := range p.Conds {
+					if cd.Taken && eqParam(cd.Term, mi.gammaF) {
+						gEq = true
+					}
+					if cd.Taken && eqParam(cd.Term, mi.offsetF) {
+						oEq = true
+					}
+				}
+				if gEq && oEq {
+					isInfOf := func(t *Term) string {
+						if t.Op == "call" && t.Sym == "math.IsInf" && len(t.Args) == 2 && t.Args[1].isConst("0") && t.Args[0].Op == "field" {
+							return t.Args[0].Sym
+						}
+						return ""
+					}
+					excluded := map[string]bool{}
+					infTaken := false
+					for _, cd := range p.Conds {
+						if f := isInfOf(cd.Term); f != "" {
+							if cd.Taken {
+								infTaken = true
+							} else {
+								excluded[f] = true
+							}
+						}
+					}
+					okFast := false
+					switch {
+					case infTaken:
+						okFast = r.isConst("false")
+					case r.Op == "un" && r.Sym == "!" && isInfOf(r.Args[0]) != "":
+						excluded[isInfOf(r.Args[0])] = true
+						okFast = excluded[mi.gammaF] && excluded[mi.offsetF]
+					case r.isConst("true"):
+						okFast = excluded[mi.gammaF] && excluded[mi.offsetF]
+					}
+					c.R.check(okFast, rule, key, shortFn(f), c.fpos(f), "exact-equality fast path: equal parameters are within tolerance exactly when neither is infinite", describeRet(p))
+					continue
+				}
+			}
 			// tolerance tests seen on the path (taken conds + returned call)
 			type tt struct {
 				fld string
